@@ -26,6 +26,7 @@ def check(ctx):
     spsc.rule_sender_drop(ctx, facts, "R4")
     if c.need("R5"):
         collector.rule_drain_keeps_live(ctx, c, "R5")
+        collector.rule_registry_in_place(ctx, c, "R5")
         collector.rule_stale_kept(ctx, c, "R6")
         collector.rule_release_sites(ctx, c, "R6", what=("sweep_exists", "stale_exists"))
         collector.rule_report(ctx, c, "R6", what=("reached", "arg"))
